@@ -363,6 +363,8 @@ static void c18_order(vr_rng *r)
     double *x = malloc((n + 2) * sizeof *x); gen_data(r, cls, x, n);
     /* one input in ten: the same shape of data, in multiples of the smallest subnormal (levels 1..5 x 2^-1074): halves are not exact down there */
     if (vr_chance(r, 1, 10)) { for (size_t k = 0; k < n; k++) { double a = fabs(x[k]) * 3.0; if (!(a < 1e15)) a = 2.0; x[k] = (double)(1 + (uint64_t)a % 5) * 0x1p-1074; } VR_CNT("inputs_in_the_subnormal_range"); }
+    /* one input in twelve: the same shape in the top binade of the doubles (0.5..1 x DBL_MAX, signs kept): the sum of two neighbours is not a double up there */
+    else if (vr_chance(r, 1, 11)) { for (size_t k = 0; k < n; k++) { double a = fabs(x[k]); a = a - floor(a); x[k] = (x[k] < 0 ? -1.0 : 1.0) * (0.5 + 0.5 * a) * DBL_MAX; } VR_CNT("inputs_in_the_top_binade"); }
     vr_fp_mix((uint64_t)cls); vr_fp_mix(n);
     vr_cnt_dyn(n <= 5 ? "size_1_5" : n < 1023 ? "size_6_1022" : n <= 1025 ? "size_1023_1025" : n <= 2049 ? "size_2047_2049" : "size_large", 1);
     char *buf = NULL; size_t bl = 0; FILE *mf;
@@ -387,6 +389,12 @@ static void c18_order(vr_rng *r)
         VR_CNT("copies_mutated");
     }
     cmb_dataset_reset(&cp);
+    /* a dataset copied onto itself is its own exact copy */
+    if (vr_nviol == 0 && vr_chance(r, 1, 4)) {
+        cmb_dataset_copy(d, d);
+        if (d->count != n || d->xa == NULL || memcmp(d->xa, x, n * sizeof(double)) != 0) vr_violation("C18/dataset-copy/onto-itself", "a dataset of %zu samples copied onto itself has %" PRIu64 " samples%s", n, d->count, d->xa == NULL ? " and no storage" : "");
+        VR_CNT("copies_onto_itself");
+    }
     if (vr_nviol) goto out;
     /* median and five-number before sorting the source (they work on copies) */
     {
@@ -447,6 +455,12 @@ static void c18_order(vr_rng *r)
             VR_CNT("copies_mutated");
         }
         cmb_timeseries_reset(&tc);
+        if (vr_nviol == 0 && vr_chance(r, 1, 4)) {
+            cmb_timeseries_copy(ts, ts);
+            if (td->count != m || td->xa == NULL || ts->ta == NULL || ts->wa == NULL) vr_violation("C18/ts-copy/onto-itself", "a time series of %zu samples copied onto itself has %" PRIu64 " samples%s", m, td->count, (td->xa == NULL || ts->ta == NULL || ts->wa == NULL) ? " and lost storage" : "");
+            else for (size_t k = 0; k < m; k++) if (ts->wa[k] != tr[k].w || ts->ta[k] != tr[k].t || td->xa[k] != tr[k].x) { vr_violation("C18/ts-copy/onto-itself", "a time series copied onto itself: sample %zu changed", k); break; }
+            VR_CNT("copies_onto_itself");
+        }
         /* copies onto a target that is in use, also from an empty source: the target becomes an exact copy, and stays a usable series */
         if (vr_nviol == 0) {
             struct cmb_timeseries *used = cmb_timeseries_create(), *empty = cmb_timeseries_create();
@@ -492,8 +506,30 @@ static void c18_order(vr_rng *r)
             free(buf); buf = NULL; VR_CNT("fivenum_reports_parsed");
         }
         if (vr_nviol) { free(tr); free(tr2); break; }
+        /* the picture and the summary of the series as recorded, for comparison with those of the same samples stored in order of value */
+        char *h_before = NULL; size_t hbl = 0; double hlo = sorted[0], hhi = sorted[n - 1]; unsigned hnb = 1 + (unsigned)vr_below(r, 12);
+        struct cmb_wtdsummary ws_before; ws_before.ds.cookie = 0; cmb_wtdsummary_initialize(&ws_before);
+        bool cmp_pictures = fabs(hlo) < 1e300 && fabs(hhi) < 1e300 && hhi > hlo;
+        if (cmp_pictures) { mf = open_memstream(&h_before, &hbl); cmb_timeseries_histogram_print(ts, mf, (uint16_t)hnb, hlo, hhi); fclose(mf); }
+        if (m >= 2) cmb_timeseries_summarize(ts, &ws_before);
         /* sort by x: ascending, triples intact; then back by t */
         cmb_timeseries_sort_x(ts);
+        if (vr_nviol == 0 && cmp_pictures) {
+            char *h_after = NULL; size_t hal = 0; mf = open_memstream(&h_after, &hal); cmb_timeseries_histogram_print(ts, mf, (uint16_t)hnb, hlo, hhi); fclose(mf);
+            if (strcmp(h_before, h_after) != 0) {
+                double wlast = ts->wa[m - 1];
+                vr_violation("C18/ts-hist/after-sort", "time-weighted histogram (%u bins on [%g,%g]) of %zu samples (weights %s) changes when the same samples are stored in order of value (the sample stored last then carries weight %g)", hnb, hlo, hhi, m, wn[wpat], wlast);
+            }
+            free(h_after); VR_CNT("ts_histograms_compared_across_storage_orders");
+        }
+        free(h_before);
+        if (vr_nviol == 0 && m >= 2) {
+            struct cmb_wtdsummary ws_after; ws_after.ds.cookie = 0; cmb_wtdsummary_initialize(&ws_after); cmb_timeseries_summarize(ts, &ws_after);
+            double wtot = 0; for (size_t k = 0; k < m; k++) wtot += tr[k].w;
+            if (wtot > 0 && (ws_after.wsum != ws_before.wsum || ws_after.wsum != wtot || cmb_wtdsummary_count(&ws_after) != cmb_wtdsummary_count(&ws_before)))
+                vr_violation("C18/ts-summarize/after-sort", "summary of %zu samples (weights %s) stored in order of value covers weight %g in %" PRIu64 " samples; as recorded %g in %" PRIu64 "; the durations add up to %g", m, wn[wpat], ws_after.wsum, cmb_wtdsummary_count(&ws_after), ws_before.wsum, cmb_wtdsummary_count(&ws_before), wtot);
+            VR_CNT("ts_summaries_compared_across_storage_orders");
+        }
         for (size_t k = 0; k < m; k++) { tr2[k].x = td->xa[k]; tr2[k].t = ts->ta[k]; tr2[k].w = ts->wa[k]; }
         { bool asc = true; for (size_t k = 1; k < m; k++) if (tr2[k - 1].x > tr2[k].x) asc = false;
           if (!asc) vr_violation("C18/ts-sort-order", "sort_x of %zu samples not ascending", m);
@@ -528,8 +564,67 @@ out:
 /* count bar characters of one printed histogram line after the '|' */
 static double bar_len(const char *line) { const char *p = strrchr(line, '|'); if (!p) return -1; double l = 0; for (p++; *p; p++) { if (*p == '#') l += 1; else if (*p == '=') l += 0.75; else if (*p == '-') l += 0.25; } return l; }
 
+/* bin counts around and beyond 2^16: every sample still lands in the bin its value says, in the table and in the printed picture */
+static void c18_hist_many_bins(vr_rng *r)
+{
+    static const unsigned nbs[] = { 65533, 65534, 65535, 65536, 65537, 70000, 131075 };
+    unsigned nb = nbs[vr_below(r, 7)]; size_t n = 50 + vr_below(r, 300);
+    double lo = (double)vr_below(r, 100), hi = lo + (double)nb * (double)(1 + vr_below(r, 3));
+    double *x = malloc(n * sizeof *x);
+    for (size_t k = 0; k < n; k++) { double u = vr_unit(r); x[k] = vr_chance(r, 1, 10) ? (vr_chance(r, 1, 2) ? lo - 1.0 - u : hi + 1.0 + u) : lo + (hi - lo) * (vr_chance(r, 1, 3) ? 0.9 + 0.1 * u : u); }
+    double bs = (hi - lo) / (double)nb; double *expect = calloc((size_t)nb + 2, sizeof *expect), emax = 0;
+    for (size_t k = 0; k < n; k++) { unsigned b; if (x[k] < lo) b = 0; else if (x[k] > hi) b = nb + 1; else { b = 1 + (unsigned)((x[k] - lo) / bs); if (b > nb + 1) b = nb + 1; } expect[b] += 1.0; if (expect[b] > emax) emax = expect[b]; }
+    struct cmi_dataset_histogram *h = cmi_dataset_histogram_create(nb, lo, hi);
+    cmi_dataset_histogram_fill(h, n, x);
+    if (h->num_bins != nb + 2) vr_violation("C18/hist-bins", "histogram has %u bins for %u requested", h->num_bins, nb);
+    else for (unsigned b = 0; b < nb + 2; b++) if (h->hbins[b] != expect[b]) { vr_violation("C18/hist-placement/many-bins", "bin %u of %u+2 holds %g samples, definition gives %g (n=%zu on [%g,%g])", b, nb, h->hbins[b], expect[b], n, lo, hi); break; }
+    cmi_dataset_histogram_destroy(h);
+    if (vr_nviol == 0) {
+        struct cmb_dataset *d = cmb_dataset_create(); for (size_t k = 0; k < n; k++) cmb_dataset_add(d, x[k]);
+        char *buf = NULL; size_t bl = 0; FILE *mf = open_memstream(&buf, &bl);
+        cmb_dataset_histogram_print(d, mf, nb, lo, hi); fclose(mf);
+        unsigned b = 0; char *save = NULL; bool bad = false; char why[160] = "";
+        for (char *ln = strtok_r(buf, "\n", &save); ln && !bad; ln = strtok_r(NULL, "\n", &save)) {
+            if (ln[0] != '[' && ln[0] != '(') continue;
+            if (b >= nb + 2) { bad = true; snprintf(why, sizeof why, "more bin lines than %u+2", nb); break; }
+            double l = bar_len(ln), want = expect[b] * 50.0 / emax;
+            if (fabs(l - want) > 1.0) { bad = true; snprintf(why, sizeof why, "bin %u: bar %.2f chars, %g samples of at most %g give %.2f", b, l, expect[b], emax, want); }
+            b++;
+        }
+        if (!bad && b != nb + 2) { bad = true; snprintf(why, sizeof why, "%u bin lines printed, expected %u", b, nb + 2); }
+        if (bad) vr_violation("C18/hist-print/many-bins", "printed histogram of %zu samples in %u bins on [%g,%g]: %s", n, nb, lo, hi, why);
+        free(buf); cmb_dataset_destroy(d);
+    }
+    /* the time-weighted one takes a 16-bit bin count: its largest values */
+    if (vr_nviol == 0) {
+        unsigned nbt = vr_chance(r, 1, 2) ? 65535u : 65534u - (unsigned)vr_below(r, 3);
+        double hit = lo + (double)nbt * 2.0, bst = (hit - lo) / (double)nbt;
+        struct cmb_timeseries *ts = cmb_timeseries_create(); double t = 0, *wexp = calloc((size_t)nbt + 2, sizeof *wexp), wmax = 0;
+        for (size_t k = 0; k < n; k++) { double v = x[k] > hit ? hit + 3.0 : x[k]; double dur = 0.25 * (double)(1 + vr_below(r, 8)); cmb_timeseries_add(ts, v, t); t += dur;
+            unsigned b; if (v < lo) b = 0; else if (v > hit) b = nbt + 1; else { b = 1 + (unsigned)((v - lo) / bst); if (b > nbt + 1) b = nbt + 1; } wexp[b] += dur; if (wexp[b] > wmax) wmax = wexp[b]; }
+        cmb_timeseries_finalize(ts, t);
+        char *buf = NULL; size_t bl = 0; FILE *mf = open_memstream(&buf, &bl);
+        cmb_timeseries_histogram_print(ts, mf, (uint16_t)nbt, lo, hit); fclose(mf);
+        unsigned b = 0; char *save = NULL; bool bad = false; char why[160] = "";
+        for (char *ln = strtok_r(buf, "\n", &save); ln && !bad; ln = strtok_r(NULL, "\n", &save)) {
+            if (ln[0] != '[' && ln[0] != '(') continue;
+            if (b >= nbt + 2) { bad = true; snprintf(why, sizeof why, "more bin lines than %u+2", nbt); break; }
+            double l = bar_len(ln), want = wexp[b] * 50.0 / wmax;
+            if (fabs(l - want) > 1.0) { bad = true; snprintf(why, sizeof why, "bin %u: bar %.2f chars, weight %g of at most %g gives %.2f", b, l, wexp[b], wmax, want); }
+            b++;
+        }
+        if (!bad && b != nbt + 2) { bad = true; snprintf(why, sizeof why, "%u bin lines printed, expected %u", b, nbt + 2); }
+        if (bad) vr_violation("C18/ts-hist/many-bins", "time-weighted histogram of %zu samples in %u bins on [%g,%g]: %s", n + 1, nbt, lo, hit, why);
+        free(buf); free(wexp); cmb_timeseries_destroy(ts);
+    }
+    VR_CNT("histograms_with_2_16_or_more_bins");
+    vr_mark_nontrivial();
+    free(expect); free(x);
+}
+
 static void c18_hist(vr_rng *r)
 {
+    if (vr_chance(r, 1, 40)) { c18_hist_many_bins(r); return; }
     int cls = (int)vr_below(r, G_N); if (cls == G_BIG || cls == G_SMALL || cls == G_OFFSET) cls = G_HEAVY;
     size_t n = 1 + vr_below(r, 400);
     double *x = malloc(n * sizeof *x); gen_data(r, cls, x, n);
